@@ -161,6 +161,8 @@ pub fn carry(ctx: &mut Ctx) {
                 let mut m0 = base.clone();
                 m0.e.insert(0, Tree::Ins(b.clone()));
                 m0.e.insert(0, Tree::Ins(a.clone()));
+                let prefix = a.split('.').next().unwrap_or("");
+                let third: Vec<String> = if ctx.tier_thorough { names.iter().filter(|n| n.split('.').next() == Some(prefix)).cloned().collect() } else { vec![a.clone()] };
                 let Real { iset, icache } = &mut real;
                 let r = guarded(|| {
                     let horizon = crate::core::DRAW_HORIZON.load(std::sync::atomic::Ordering::Relaxed);
@@ -179,17 +181,51 @@ pub fn carry(ctx: &mut Ctx) {
                     pushr::push::graph::verif_set_node_counter(counter);
                     pushr::push::verif::install_script(vec![], horizon);
                     PushInterpreter::step(&mut st2, iset, icache);
-                    (mid, live, observe(&st2))
+                    let rebuilt = observe(&st2);
+                    // third step(s): a again (what a left behind, b changed, a reads again), in the thorough tier
+                    // also every instruction of a's stack type -- on the live object and on a state rebuilt from
+                    // what the live object shows after b
+                    let counter2 = pushr::push::graph::verif_node_counter();
+                    let mut thirds: Vec<(String, M, M)> = vec![];
+                    if live.key() == rebuilt.key() {
+                        for c in third.iter() {
+                            let mut after_b = live.clone();
+                            after_b.e.insert(0, Tree::Ins(c.clone()));
+                            // live: the object that has seen a and b (cloning is not possible: replay a, b on a fresh object)
+                            let mut st3 = build(&m0);
+                            pushr::push::graph::verif_set_node_counter(crate::refmodel::next_node_id());
+                            pushr::push::verif::install_script(vec![], horizon);
+                            PushInterpreter::step(&mut st3, iset, icache);
+                            pushr::push::verif::install_script(vec![], horizon);
+                            PushInterpreter::step(&mut st3, iset, icache);
+                            st3.exec_stack.push(crate::model::item_of(&Tree::Ins(c.clone())));
+                            pushr::push::verif::install_script(vec![], horizon);
+                            PushInterpreter::step(&mut st3, iset, icache);
+                            let l3 = observe(&st3);
+                            let mut st4 = build(&after_b);
+                            pushr::push::graph::verif_set_node_counter(counter2);
+                            pushr::push::verif::install_script(vec![], horizon);
+                            PushInterpreter::step(&mut st4, iset, icache);
+                            thirds.push((c.clone(), l3, observe(&st4)));
+                        }
+                    }
+                    (mid, live, rebuilt, thirds)
                 });
                 pushr::push::verif::clear_script();
                 pushr::push::verif::clear_clock();
                 let (okey, v) = match r {
                     // a crash is C01's business
                     Err(p) => (format!("PANIC {}", panic_class(&p)), Verdict::Pass),
-                    Ok((mid, live, rebuilt)) => {
+                    Ok((mid, live, rebuilt, thirds)) => {
                         let lk = live.key();
                         if lk == rebuilt.key() {
-                            (format!("{}|{}|{}", a, b, h64(&lk)), Verdict::Pass)
+                            match thirds.iter().find(|(_, l, r)| l.key() != r.key()) {
+                                None => (format!("{}|{}|{}", a, b, h64(&lk)), Verdict::Pass),
+                                Some((c, l, r)) => (
+                                    format!("{}|{}|{}|differs", a, b, c),
+                                    Verdict::fail(c, "depends-on-unobservable-state", format!("after {} and {} the state is {{{}}}; {} executed on the live object changes {:?}, on an equal rebuilt state {:?}", a, b, crate::core::trunc(&live.key(), 400), c, live.diff(l), live.diff(r))),
+                                ),
+                            }
                         } else {
                             (
                                 format!("{}|{}|differs", a, b),
@@ -202,6 +238,95 @@ pub fn carry(ctx: &mut Ctx) {
                 ctx.record(id, &okey, v, || format!("{} then {} on the {} base", a, b, bl));
             }
         }
+    }
+}
+
+/// memo -- results are not remembered across steps: for ordered pairs (x, y) of instructions and every
+/// assignment of two operand states a, b (same shape and the same INTEGER stack, every other value
+/// different) to the three steps x, y, x executed on ONE live state object -- whose visible content is set
+/// through the containers' own operations before each step -- the third step gives what x gives on a freshly
+/// built state of the same content. A value remembered from the first step (keyed by operands, sizes,
+/// addresses, ...) and not invalidated by y shows here.
+pub fn memo(ctx: &mut Ctx) {
+    let mut real = Real::new();
+    let names: Vec<String> = real.names().into_iter().filter(|n| !excluded(n) && n != "EXEC.CMD").collect();
+    let mut a = crate::alpha::populated();
+    a.i = vec![1, 2, 0, 3, 2];
+    a.f = vec![0.5, 2.0, -1.5];
+    a.c = vec![Tree::L(vec![Tree::B(true), Tree::I(10), Tree::F(0.5)]), Tree::L(vec![Tree::I(1), Tree::L(vec![Tree::I(2), Tree::I(3)])]), Tree::I(1), Tree::L(vec![])];
+    // b: same shapes, same INTEGER stack, other values
+    let mut b = a.clone();
+    b.b = a.b.iter().map(|x| !x).collect();
+    b.f = vec![2.0, 0.25, 3.5];
+    b.n = vec!["M1".into(), "M2".into(), "M3".into()];
+    b.c = vec![Tree::L(vec![Tree::B(false), Tree::I(42), Tree::F(7.5)]), Tree::L(vec![Tree::I(5), Tree::L(vec![Tree::I(6), Tree::I(7)])]), Tree::I(9), Tree::L(vec![])];
+    b.e = vec![Tree::I(91), Tree::L(vec![Tree::I(92)]), Tree::ins("NOOP"), Tree::name("M8")];
+    b.bv = a.bv.iter().map(|v| v.iter().map(|x| !x).collect()).collect();
+    b.iv = a.iv.iter().map(|v| v.iter().map(|x| x + 100).collect()).collect();
+    b.fv = a.fv.iter().map(|v| v.iter().map(|x| x + 100.0).collect()).collect();
+    b.bindings.clear();
+    b.bindings.insert("BOUND1".into(), Tree::I(55));
+    b.bindings.insert("BOUND2".into(), Tree::L(vec![Tree::I(66)]));
+    // three INTEGER stacks (indices and positions that address different items), the same in a and b
+    let int_variants: Vec<Vec<i32>> = vec![vec![1, 2, 0, 3, 2], vec![0, 1, 2, 0, 3], vec![0, 0, 1, 1, 2]];
+    for ints in int_variants {
+    a.i = ints.clone();
+    b.i = ints.clone();
+    let states = [a.clone(), b.clone()];
+    // fresh answers: x on a freshly built state of content a / b
+    let patterns: [[usize; 3]; 6] = [[0, 0, 1], [0, 1, 1], [0, 1, 0], [1, 0, 0], [1, 1, 0], [1, 0, 1]];
+    ctx.extra.push(("instructions".into(), crate::core::J::Int(names.len() as i64)));
+    for x in &names {
+        let px = x.split('.').next().unwrap_or("");
+        let fresh: Vec<crate::core::Outcome> = states.iter().map(|s| crate::core::step_once(&mut real, &crate::core::with_instr(s, x))).collect();
+        for y in &names {
+            if !ctx.tier_thorough && y.split('.').next() != Some(px) {
+                continue;
+            }
+            let id = match ctx.take() {
+                Some(id) => id,
+                None => continue,
+            };
+            ctx.transitions += 3 * patterns.len() as u64;
+            ctx.states += 1;
+            let mut problem: Option<String> = None;
+            for pat in patterns.iter() {
+                let Real { iset, icache } = &mut real;
+                let r = guarded(|| {
+                    let horizon = crate::core::DRAW_HORIZON.load(std::sync::atomic::Ordering::Relaxed);
+                    let mut st = PushState::new();
+                    pushr::push::verif::install_clock(0);
+                    for (k, ins) in [x, y, x].iter().enumerate() {
+                        crate::model::set_live(&mut st, &states[pat[k]]);
+                        st.exec_stack.push(crate::model::item_of(&Tree::Ins((*ins).clone())));
+                        pushr::push::graph::verif_set_node_counter(crate::refmodel::next_node_id());
+                        pushr::push::verif::install_script(vec![], horizon);
+                        PushInterpreter::step(&mut st, iset, icache);
+                    }
+                    observe(&st)
+                });
+                pushr::push::verif::clear_script();
+                pushr::push::verif::clear_clock();
+                match (&r, &fresh[pat[2]]) {
+                    (Ok(l), crate::core::Outcome::Ok(f)) => {
+                        if l.key() != f.key() {
+                            problem = Some(format!("{} on content {} after {} on content {} and {} on content {} (one live state) changes {:?}; on a freshly built state of the same content it changes {:?}", x, pat[2], x, pat[0], y, pat[1], states[pat[2]].diff(l), states[pat[2]].diff(f)));
+                            break;
+                        }
+                    }
+                    // crashes are C01's business
+                    _ => {}
+                }
+            }
+            let okey = format!("{}|{}|{}", x, y, problem.is_some());
+            let v = match problem {
+                None => Verdict::Pass,
+                Some(p) => Verdict::fail(x, "remembers-an-earlier-step", p),
+            };
+            ctx.nontrivial_mark(&okey);
+            ctx.record(id, &okey, v, || format!("{} , {} , {} on one live state over operand contents a/b (INTEGER stack {:?})", x, y, x, ints));
+        }
+    }
     }
 }
 
@@ -236,6 +361,10 @@ pub fn corpus(thorough: bool) -> Vec<Tree> {
     // vectors, records and neighbourhoods (sizes that share a hypercube edge: 5, 7, 9 in two dimensions)
     for size in [5, 7, 9] {
         v.push(Tree::L(vec![Tree::F(1.0), Tree::I(2), Tree::I(4), Tree::I(size), Tree::ins("LIST.NEIGHBOR*IDS"), Tree::ins("INTVECTOR.SUM")]));
+    }
+    // ... and sizes / dimensions with different edge lengths (A, B, A histories arise among the ordered pairs)
+    for (size, dim) in [(16, 2), (16, 1), (27, 3)] {
+        v.push(Tree::L(vec![Tree::F(1.0), Tree::I(dim), Tree::I(4), Tree::I(size), Tree::ins("LIST.NEIGHBOR*IDS"), Tree::ins("INTVECTOR.SUM")]));
     }
     v.push(Tree::L(vec![Tree::IV(vec![1, 2, 3]), Tree::IV(vec![10, 20]), Tree::I(1), Tree::ins("INTVECTOR.+"), Tree::ins("INTVECTOR.SUM")]));
     v.push(Tree::L(vec![Tree::B(true), Tree::I(5), Tree::IV(vec![9, 1]), Tree::ins("LIST.ADD"), Tree::I(0), Tree::ins("LIST.GET")]));
@@ -421,6 +550,7 @@ pub fn run(ctx: &mut Ctx) {
         "orderrev" => order_rev(ctx),
         "pairs" => pairs(ctx),
         "carry" => carry(ctx),
+        "memo" => memo(ctx),
         "clidump" => clidump(ctx),
         f => panic!("unknown family {}", f),
     }
